@@ -183,16 +183,33 @@ def minimise(chk, prog: dict, bad: dict):
         hit = {b["id"]: b for b in bads if b["decl"] == target and b["why"] == why}
         return [hit.get(base + i) for i in range(len(cands))]
 
-    decls = pd.minimise_list(json.loads(json.dumps(prog["decls"])),
-                             lambda cs: [x is not None for x in judge_progs([dict(prog, decls=c) for c in cs])],
-                             keep=lambda d: head(d) == target)
+    all_decls = json.loads(json.dumps(prog["decls"]))
+    tdecl = next(x for x in all_decls if head(x) == target)
+    # first guess (one TLC run): the literal alone / an entrypoint together with its client field
+    guesses = [[tdecl]]
+    if tdecl["k"] == "entrypoint":
+        guesses = [[x, tdecl] for x in all_decls if x["k"] == "field" and (x["on"], x["name"]) == (tdecl["on"], tdecl["name"])][:1]
+    last = None
+    decls = None
+    if guesses and len(all_decls) > len(guesses[0]):
+        res = judge_progs([dict(prog, decls=g) for g in guesses])
+        if res[0] is not None:
+            decls, last = guesses[0], res[0]
+    if decls is None:
+        last = None
+        decls = pd.minimise_list(all_decls,
+                                 lambda cs: [x is not None for x in judge_progs([dict(prog, decls=c) for c in cs])],
+                                 keep=lambda d: head(d) == target)
     cur = dict(prog, decls=decls)
     d = next(x for x in cur["decls"] if head(x) == target)
     if d.get("hdr") and len(d["hdr"]) > 1:
+        last = None
         gaps = pd.minimise_list(sorted(d["hdr"].items()),
                                 lambda cs: [x is not None for x in judge_progs(
                                     [dict(cur, decls=[dict(x, hdr=dict(c)) if x is d else x for x in cur["decls"]]) for c in cs])])
         d["hdr"] = dict(gaps)
+    if last is not None and cur.get("opt") != "nobabel":
+        return cur, last
     final = [cur] + ([dict(cur, opt="std")] if cur.get("opt") == "nobabel" else [])
     res = judge_progs(final)
     if len(final) == 2 and res[1] is not None:
